@@ -1,5 +1,6 @@
 (** C07 - REQ/REP envelopes are added, preserved and stripped exactly.  Property theorems only. *)
 From ZV Require Import Base.Bytes Base.Res Model.Codec Model.World Proofs.SocketProofs.
+From ZV Require Proofs.CodecEnc Proofs.ReqRepWire.
 
 Theorem C07_gen_constants : Gen.req_min_frames = 2 /\ Gen.rep_min_frames = 2 /\ Gen.rep_rejects_empty_payload = 1.
 Proof. repeat split; reflexivity. Qed.
@@ -52,3 +53,31 @@ Print Assumptions C07_end_to_end.
 Example C07_example :
   rep_split ([[7]; [8; 9]] ++ [] :: [[1]; []; [2]]) = Ok ([[7]; [8; 9]; []], [[1]; []; [2]]).
 Proof. vm_compute. reflexivity. Qed.
+
+(** over the wire, composed with the codec (C01/C02) and the fair queue (C05): a REQ socket writes exactly one
+    empty delimiter and the payload ... *)
+Theorem C07_wire_request : forall k p,
+  World.run (world0 REQ) [OAttach k None; OSend p; OWire k] =
+  [BAtt k None; BSendOk; BWire k (encode_frames ([] :: p))].
+Proof. exact ReqRepWire.req_request_on_the_wire. Qed.
+Print Assumptions C07_wire_request.
+
+(** ... a REP socket receiving those bytes in ANY chunking, possibly behind routing identities [ids] added by
+    intermediaries, hands over exactly the payload, its reply retraces the envelope, a second reply is refused ... *)
+Theorem C07_wire_rep_serves : forall j ids p r chunks,
+  nonempty_frames ids -> p <> [] -> CodecEnc.wf_msg (ids ++ [] :: p) ->
+  concat chunks = encode_frames (ids ++ [] :: p) ->
+  World.run (world0 REP) (OAttach j None :: map (OFeed j) chunks ++ [ORecv; OSend r; OWire j; OSend r]) =
+  [BAtt j None; BRecv None p; BSendOk; BWire j (encode_frames (ids ++ [] :: r)); BSendErr EReturnToSender (Some r)].
+Proof. exact ReqRepWire.rep_serves_over_the_wire. Qed.
+Print Assumptions C07_wire_rep_serves.
+
+(** ... and the REQ socket receiving the reply's bytes in any chunking returns exactly the reply's payload,
+    refuses a second recv and then accepts the next request (C08's alternation, over the wire) *)
+Theorem C07_wire_reply : forall k p r p2 chunks,
+  r <> [] -> CodecEnc.wf_msg ([] :: r) ->
+  concat chunks = encode_frames ([] :: r) ->
+  World.run (world0 REQ) (OAttach k None :: OSend p :: OWire k :: map (OFeed k) chunks ++ [ORecv; ORecv; OSend p2; OWire k]) =
+  [BAtt k None; BSendOk; BWire k (encode_frames ([] :: p)); BRecv None r; BRecvErr EOther; BSendOk; BWire k (encode_frames ([] :: p2))].
+Proof. exact ReqRepWire.req_reply_over_the_wire. Qed.
+Print Assumptions C07_wire_reply.
